@@ -225,6 +225,29 @@ InWindow(sp, t) == /\ U64Leq(sp.date, t.s)
                    /\ U64Less(t.s, sp.expires) \/ (t.s = sp.expires /\ t.ns = 0)
 LifetimeOk(sp) == U64Less(sp.expires, sp.date) \/ U64Leq(U64Sub(sp.expires, sp.date), Week)
 
+\* Timestamps outside the domain of Accept (negative date / expires: sh-integers may carry a sign).  Acceptance of such an
+\* item is not specified here, but two conditions are pure arithmetic on signed 64-bit integers and hold for whatever is
+\* accepted: the lifetime cap and the window.  st = [neg, mag (U64, the absolute value)]
+SignedTime(text) == IF text # <<>> /\ text[1] = 45 THEN [neg |-> TRUE, mag |-> DecToU64(SubSeq(text, 2, Len(text))).v]
+                    ELSE [neg |-> FALSE, mag |-> DecToU64(text).v]
+SLifetimeOk(d, e) ==
+  IF ~d.neg /\ ~e.neg THEN U64Less(e.mag, d.mag) \/ U64Leq(U64Sub(e.mag, d.mag), Week)
+  ELSE IF d.neg /\ ~e.neg THEN LET sum == U64Add(e.mag, d.mag) IN sum.carry = 0 /\ U64Leq(sum.v, Week)      \* expires - date = e + |d|
+  ELSE IF d.neg /\ e.neg THEN U64Less(d.mag, e.mag) \/ U64Leq(U64Sub(d.mag, e.mag), Week)                    \* |d| - |e|
+  ELSE TRUE                                                                                                  \* expires < 0 <= date: empty window
+SInWindow(d, e, t) == /\ d.neg \/ U64Leq(d.mag, t.s)
+                      /\ ~e.neg /\ (U64Less(t.s, e.mag) \/ (t.s = e.mag /\ t.ns = 0))
+HasNegativeTime(x) ==
+  LET pl == RefParsePL(x.sighdr) IN
+  pl.ok /\ \E i \in 1..Len(pl.v) : LET ps == pl.v[i].params IN
+     /\ PHas(ps, K_date, "int") /\ PHas(ps, K_expires, "int")
+     /\ (PVal(ps, K_date)[1] = 45 \/ PVal(ps, K_expires)[1] = 45)
+TimesSound(x, t) ==
+  LET pl == RefParsePL(x.sighdr) IN
+  pl.ok /\ \E i \in 1..Len(pl.v) : LET ps == pl.v[i].params IN
+     /\ PHas(ps, K_date, "int") /\ PHas(ps, K_expires, "int")
+     /\ LET d == SignedTime(PVal(ps, K_date))  e == SignedTime(PVal(ps, K_expires)) IN SLifetimeOk(d, e) /\ SInWindow(d, e, t)
+
 \* payload integrity: the payload decodes completely under the digest header of the (signed) response headers
 PayloadDecode(x) ==
   LET dg == HGet(x.resph, DigestHeaderName(x))
